@@ -167,8 +167,13 @@ def job_row(i, tier, seed):
             want.append((z32(sel4('arrn', F(k))), z16(sel4('arstep', si))))
             k += 2
         elif p[1] in ('ArpRn1', 'ArpRn2') and nxt in ('ArpStep1', 'ArpStep2') and k + 2 < len(ops) and ops[k + 2][1] == nxt:
-            want.append((z32(sel4('arprni', F(k))), z16(sel4('arpstepi', F(k + 1)))))
-            want.append((z32(sel4('arprnj', F(k))) + 4, z16(sel4('arpstepj', F(k + 2)))))
+            # forms that name the modulo behaviour of each side (EMod / DMod constants right after the step pair)
+            allops = form['ops']
+            pos = allops.index(p)
+            flags = [q[1] for q in allops[pos + 3:pos + 5] if q[0] == 'cn' and q[1] in ('EMod', 'DMod')]
+            di, dj = (flags[0] == 'DMod', flags[1] == 'DMod') if len(flags) == 2 else (None, None)
+            want.append((z32(sel4('arprni', F(k))), z16(sel4('arpstepi', F(k + 1))), di))
+            want.append((z32(sel4('arprnj', F(k))) + 4, z16(sel4('arpstepj', F(k + 2))), dj))
             k += 3
         else:
             k += 1
@@ -183,7 +188,7 @@ def job_row(i, tier, seed):
     def stepper(e_, st, a):
         k = len([1 for ev in st.log if ev[0] == 'STEP'])
         ret = z3.BitVec('RNOLD_%d' % k, 16)
-        st.log.append(('STEP', list(st.pc), a[1], a[2], ret))
+        st.log.append(('STEP', list(st.pc), a[1], a[2], ret, a[3] if len(a) > 3 else None))
         return st, ret
     ex.intercepts[name[0]] = stepper
     A = E.inv() + [E.match_pred(row, o)]
@@ -201,12 +206,19 @@ def job_row(i, tier, seed):
     calls = [ev for ev in r['st'].log if ev[0] == 'STEP']
     goals = []
     anyexit = kit.exit_cond(type('X', (), {'exits': r['exits']})(), ('throw', 'assert', 'abort'))
-    for u, s_ in want:
-        hits = [z3.And(kit.path_cond(ev[1]), bv(ev[2], 32) == u, bv(ev[3], 32) == z3.ZeroExt(16, s_)) for ev in calls]
+    def dmod_is(ev, d):
+        if d is None or ev[5] is None:
+            return z3.BoolVal(True)
+        got = ev[5]
+        got = (got != 0) if (z3.is_expr(got) and not z3.is_bool(got)) else (z3.BoolVal(bool(got)) if is_c(got) else got)
+        return got == z3.BoolVal(d)
+    want = [(w + (None,))[:3] for w in want]
+    for u, s_, d in want:
+        hits = [z3.And(kit.path_cond(ev[1]), bv(ev[2], 32) == u, bv(ev[3], 32) == z3.ZeroExt(16, s_), dmod_is(ev, d)) for ev in calls]
         goals.append(z3.Implies(cond, z3.Or(anyexit, *hits) if hits else anyexit))
     # no stepping of a register the operands do not name
     for ev in calls:
-        goals.append(z3.Implies(kit.path_cond(ev[1]), z3.Or(*[z3.And(bv(ev[2], 32) == u, bv(ev[3], 32) == z3.ZeroExt(16, s_)) for u, s_ in want])))
+        goals.append(z3.Implies(kit.path_cond(ev[1]), z3.Or(*[z3.And(bv(ev[2], 32) == u, bv(ev[3], 32) == z3.ZeroExt(16, s_), dmod_is(ev, d)) for u, s_, d in want])))
     # each returned pre-modified value is what reaches the memory interface (through the real RnAddress)
     accesses = [ev for ev in r['st'].log if ev[0] in ('R', 'W', 'P', 'PW')]
     for ev in calls:
@@ -223,7 +235,7 @@ def run(tier, seed):
     E = env()
     ck.funcs.update(['Interpreter::RnAndModify', 'StepAddress', 'RnAddress', 'RnAddressAndModify', 'OffsetAddress', 'BitReverse', 'std20::log2p1', 'all rows with (Rn|R45|R0123, StepZIDS), (ArRn, ArStep) or (ArpRn, ArpStep, ArpStep) operand groups'])
     ck.assumptions += ['Inv; unit < 8; step kind < 8', 'modulo walk: start inside the buffer ((r & mask) <= mod) and step +-1, as the statement says; other steps under modulo (+-2 modes, +s) are covered by the reference comparison C01',
-                       'wiring: RnAndModify is abstracted to a call event returning a fresh pre-modified value; for ar/arp-addressed rows the register/step are the arrn/arstep (arprn/arpstep) fields the operand indexes (their meaning in the ar/arp words is C20)']
+                       'wiring: RnAndModify is abstracted to a call event returning a fresh pre-modified value (for the dual-operand mma forms the disable-modulo flag passed for each side is checked against the EMod/DMod constants of the form); for ar/arp-addressed rows the register/step are the arrn/arstep (arprn/arpstep) fields the operand indexes (their meaning in the ar/arp words is C20)']
     ck.bounds += ['no bound on values: 16-bit registers, 9-bit modulo, all mode bits, all 8 units symbolic in one query']
     ck.stubs += E.tabulated
     rows = [r['i'] for r in E.rows]
